@@ -260,3 +260,9 @@ def rule_K(ck, lib, pfx):
     ck.floor(pfx + "-K4", "inner-loop paths (one per terminator)", n_inner, 2)
     ck.floor(pfx + "-K6", "tail paths after the scan", n_tail, 3)
     c02.async_rules(ck, lib, "C07-A")
+    if pfx == "C07":
+        # process hands run one terminated message at a time and relies on run consuming it: also a faulty one (reported
+        # once, skipped to its terminator - the raw newline process itself stopped at). Otherwise the message stays in the
+        # buffer and is offered again with every later line, unlike run on the messages one at a time (rule C06-R)
+        import c06
+        c06.rule_R(ck, lib, "C07-C06R")
